@@ -265,7 +265,7 @@ pub fn glide_case(data: &[u8]) -> glide::GlideCase {
 
 pub fn ribbon_case(data: &[u8]) -> ribbon::RibbonCase {
     let mut r = Rd::new(data);
-    let rate_idx = r.u8() % 24;
+    let rate_idx = if r.bool() { (r.u8() % 24) as u16 } else { r.u16() % ribbon::RATES.len() as u16 };
     let softpot_idx = r.u8() % 4;
     let dropper_frac = r.unit() as f32;
     let pullup_factor = (r.unit() * 1000f64.ln()).exp() as f32;
@@ -419,7 +419,7 @@ pub fn api_case(data: &[u8]) -> api::ApiCase {
             api::ApiCase::Quant { calls }
         }
         4 => {
-            let (rate_idx, softpot_idx) = (r.u8() % 24, r.u8() % 4);
+            let (rate_idx, softpot_idx) = (r.u16() % ribbon::RATES.len() as u16, r.u8() % 4);
             let dropper_frac = r.unit() as f32;
             let pullup_factor = (r.unit() * 1000f64.ln()).exp() as f32;
             let mut calls = vec![];
